@@ -12,7 +12,10 @@ import (
 
 type fSched struct{ s *simrt.Sched }
 
-func (f *fSched) Install()                    { simrt.Install(f.s) }
+func (f *fSched) Install() {
+	f.s.SetDriver() // the goroutine that installs the scheduler is the driver
+	simrt.Install(f.s)
+}
 func (f *fSched) SetSelectSeed(seed uint64)   { f.s.SelectSeed = seed }
 func (f *fSched) SetDriverWait(w func() bool) { f.s.DriverWait = w }
 func (f *fSched) SetNotify(n chan struct{})   { f.s.SetNotify(n) }
